@@ -300,4 +300,22 @@ def c06_4(c: Ctx) -> None:
         c.ok(where(u), 'no concurrent handler execution path at all')
 
 
+
+@ob('C06.5', 'ESC', 'on a parallel_handlers bus every handler task is awaited to completion before _execute_handlers returns — also when a sibling handler raised — so the '
+    'processing lock is never released while a handler of the event is still running (same construct as C01.4 / C11.1)')
+def c06_5(c: Ctx) -> None:
+    from .c01 import check_handler_site
+
+    u, sites = exec_handler_sites(c)
+    g = c.cfg(u)
+    n = 0
+    for call in sites:
+        if isinstance(parent(call), ast.Await):
+            continue
+        n += 1
+        check_handler_site(c, u, g, call)
+    if n == 0:
+        c.ok(where(u), 'no concurrent handler execution path at all')
+
+
 OBLIGATIONS = ob.obs
